@@ -139,10 +139,15 @@ def ob_modify(n, timeout):
         kf.addTier(t2)
         kb = kgc.KlattIntermediateTier("bandwidths")
         kb.addTier(other)
-        kct = kgc.KlattContainerTier("oral_formants")
+        amp = kgc.KlattSubPointTier("oral_formants_amplitudes [1]", [(ts[i], vs[i]) for i in range(n)], 0.0, 100.0)
+        ka = kgc.KlattIntermediateTier("oral_formants_amplitudes")  # a name that contains "formants"
+        ka.addTier(amp)
+        kct = kgc.KlattContainerTier("nasal_antiformants")
         kct.addTier(kf)
         kct.addTier(kb)
+        kct.addTier(ka)
         before_other = [tuple(e) for e in other.entries]
+        before_amp = [tuple(e) for e in amp.entries]
         order = sorted(range(n), key=lambda i: (ts[i], vs[i]))
         kct.modifySubtiers("formants", f)
         if len(calls) != 2 * n:
@@ -152,11 +157,15 @@ def ob_modify(n, timeout):
             want = [(ts[i], a * vs[i] + b) for i in order]
             if got != want:
                 return "values/times after modification"
-        if [tuple(e) for e in other.entries] != before_other:
+        if [tuple(e) for e in other.entries] != before_other or [tuple(e) for e in amp.entries] != before_amp:
             return "tier that was not addressed changed"
-        return True
+        try:
+            kct.modifySubtiers("formant", f)
+        except KeyError:
+            return True
+        return "a name that is no intermediate tier was accepted"
 
-    return Ob("modify-subtiers-n%d" % n, F(*names), body, pre, fmode="real", timeout=timeout, funcs=FUNCS[2:3], bounds="2 addressed sub-tiers + 1 other, %d points each, symbolic affine modification" % n)
+    return Ob("modify-subtiers-n%d" % n, F(*names), body, pre, fmode="real", timeout=timeout, funcs=FUNCS[2:3], bounds="2 addressed sub-tiers + 2 others (one in an intermediate tier whose name contains the addressed name), %d points each, symbolic affine modification" % n)
 
 
 # ----------------------------------------------------------------- concrete cross-checks
